@@ -310,6 +310,12 @@ func shapeKey(c *Case, ex expect, outcome string) string {
 	if c.KnownLen {
 		shape += "+content-length"
 	}
+	if c.Asset != "" {
+		shape += "+asset-" + c.Asset
+	}
+	if c.Duplex {
+		shape += "+full-duplex"
+	}
 	if c.Poison {
 		shape += "+after-failed-decompression"
 	}
@@ -472,6 +478,7 @@ func RunC06(r *mon.Run) {
 	g.timed("laneWebTextEncodings", func() { g.laneWebTextEncodings() })
 	g.timed("laneBodyContentTypes", func() { g.laneBodyContentTypes() })
 	g.timed("laneEncodedDelivery", func() { g.laneEncodedDelivery() })
+	g.timed("laneAssets", func() { g.laneAssets("inproc") })
 	g.timed("lanePoisonedPool", func() { g.lanePoisonedPool() })
 	g.timed("laneReal", func() { g.laneReal() })
 	g.timed("laneConcurrent", func() { g.laneConcurrent() })
@@ -650,6 +657,70 @@ func (g *gen) laneInterleave() {
 				g.sweepSchedules(c, 0, samples)
 			}
 		}
+	}
+}
+
+// laneAssets: download handlers that serve long-lived memory (sub-slices of
+// an asset, or one buffer reused for every chunk); the same asset is
+// downloaded again and again with other traffic on the same mux in between.
+// The client must receive the pristine bytes, and at the end of every round
+// a canary checks that the handler's asset is unchanged.
+func (g *gen) laneAssets(lane string) {
+	r, e := g.r, g.e
+	rounds := r.Pick(4, 20)
+	if lane != "inproc" {
+		rounds = r.Pick(2, 8)
+	}
+	exec := func(c *Case) {
+		if lane == "inproc" {
+			g.run(c)
+			return
+		}
+		c.Lane = lane
+		if c.Sched == "" {
+			c.Sched = "asset-traffic"
+		}
+		g.runReal(c)
+	}
+	sizes := [][]int{{100, 300, 50}, {1, 0, 7, 64}, {1000, 1000, 1000, 24}, {4096}, {3, 3, 3, 3, 3, 3}}
+	var last *Case
+	for round := 0; round < rounds; round++ {
+		for mi, mode := range []string{"subslice", "reuse"} {
+			szs := sizes[(round+mi)%len(sizes)]
+			download := func() *Case {
+				ct := bodyTypes[(round+mi)%len(bodyTypes)]
+				c := &Case{T: "http", Codec: "httpbody", Shape: "download", CT: ct, Asset: mode, Trunc: -1, Msgs: [][]byte{}, Sched: "one-read"}
+				off := 0
+				for _, n := range szs {
+					c.Reply = append(c.Reply, mustMarshal(mkBody(ct, e.assetCopy[off:off+n])))
+					off += n
+				}
+				build(c, bodyOpt{})
+				return c
+			}
+			exec(download())
+			// other traffic on the same mux
+			for ti, tc := range []tcombo{{"http", "json", ""}, {"http", "proto", ""}} {
+				c := &Case{T: tc.T, Codec: tc.Codec, Shape: []string{"cs", "bidi"}[(round+ti)%2], Trunc: -1, Sched: "one-read"}
+				c.Echo = c.Shape == "bidi" && lane != "h1"
+				c.Msgs = g.msgs([]string{"D300", "T", "P700", "D40"}, tc, 0)
+				if !c.Echo {
+					c.Reply = [][]byte{g.reply(4)}
+				}
+				build(c, bodyOpt{})
+				exec(c)
+			}
+			up := &Case{T: "http", Codec: "httpbody", Shape: "upload", Trunc: -1, Sched: "one-read", Msgs: [][]byte{prf(g.rng, 700+round)}, Reply: [][]byte{{}}}
+			build(up, bodyOpt{})
+			exec(up)
+			last = download()
+			exec(last)
+		}
+		if !bytes.Equal(e.asset, e.assetCopy) {
+			r.Violate("http/httpbody:asset-modified:long-lived-handler-memory", fmt.Sprintf("after downloads and other traffic on the same mux the handler's own asset differs from its pristine copy (first difference at byte %d): the library wrote into memory the handler had only handed out for sending", firstDiff(e.asset, e.assetCopy)), last)
+			copy(e.asset, e.assetCopy)
+		}
+		r.Count("asset_canary_checks", 1)
 	}
 }
 
